@@ -545,7 +545,9 @@ impl Space for FileTables {
             spec.no_shdrs = true;
             let ehsz = layout(Kind::Ehdr, enc.class).size as u64;
             let phsz = layout(Kind::Phdr, enc.class).size as u64;
-            spec.segs = vec![Seg { p_type: PT_DYNAMIC, flags: 6, vaddr: 0, paddr: 0, align: 8, memsz_extra: 0, target: SegTarget::Range { offset: ehsz + phsz, filesz: blen as u64 } }];
+            // p_memsz below / equal to / above p_filesz: the file bytes are p_filesz long whatever the memory image is
+            let memsz_extra = [0u64.wrapping_sub((blen as u64).min(ent as u64)), 0, 24][idx as usize % 3];
+            spec.segs = vec![Seg { p_type: PT_DYNAMIC, flags: 6, vaddr: 0, paddr: 0, align: 8, memsz_extra, target: SegTarget::Range { offset: ehsz + phsz, filesz: blen as u64 } }];
             let mut b = build(&spec);
             let a = b.bytes.len();
             assert_eq!(a as u64, ehsz + phsz);
